@@ -39,8 +39,10 @@ m = {
         "add_only": True,
     },
     "engines": [
-        {"name": "kani", "path": "/verif/harness", "serves_properties": [p for p in props if p in md.CLAIMED and md.CLAIMED[p].get("engine", "kani") in ("kani", "kani+mir2smt")],
+        {"name": "kani", "path": "/verif/harness", "serves_properties": [p for p in props if p in md.CLAIMED and "kani" in md.CLAIMED[p].get("engine", "kani")],
          "kind_free_text": "Kani 0.68 / CBMC 6.11 bounded model checking of the real crates through out-of-tree harness crates with path dependencies on /repo"},
+        {"name": "mir2smt", "path": "/verif/mir2smt", "serves_properties": [p for p in props if p in md.CLAIMED and "mir2smt" in md.CLAIMED[p].get("engine", "kani")],
+         "kind_free_text": "nightly MIR dump of the real crate (regenerated on every run) -> forward symbolic execution of the acyclic CFG -> SMT-LIB2 over Int with explicit machine ranges -> z3 (cvc5 cross-check in the thorough tier), native replay of every model"},
     ],
     "checks": checks,
     "not_applicable": na,
